@@ -19,7 +19,7 @@ func H_Release() {
 	cycles := vrt.Param("cycles", 2)
 	nestKind := vrt.Pick("nest", 0, 2) // 0: no nested scope, 1: nested with a nil context, 2: nested with a context of its own
 	nest := nestKind != 0
-	how := vrt.Pick("how", 0, 2)    // 0: Close the scope, 1: Close its parent / the outer scope, 2: cancel the caller's context
+	how := vrt.Pick("how", 0, 2)     // 0: Close the scope, 1: Close its parent / the outer scope, 2: cancel the caller's context
 	ctxKind := vrt.Pick("ctx", 0, 2) // 0: nil, 1: background-derived value context, 2: cancellable context kept by the caller
 	life := []int{kit.LScoped, kit.LTransient}[vrt.Pick("life", 0, 1)]
 	withInit := vrt.Pick("init", 0, 1) == 1
